@@ -384,3 +384,220 @@ Proof.
     apply lex_unary; auto; try reflexivity. discriminate.
   - intros a IH Hwf acc rest r D H. cbn [spec_cass_print toks]. apply lex_unary; auto; try reflexivity. discriminate.
 Qed.
+
+(* ------------------------------------------------------------------ the token splitter and int() *)
+Definition nosepc (c : ascii) : bool := negb (code c =? 58)%N && negb (code c =? 61)%N.
+Definition nosepb (w : str) : bool := forallb nosepc w.
+
+Lemma split_nosep : forall w s first cur, nosepb w = true -> split_tok (w ++ s) first cur = split_tok s first (cur ++ w).
+Proof.
+  induction w as [|c w IH]; intros s first cur H.
+  - simpl. rewrite app_nil_r. reflexivity.
+  - simpl in H. apply andb_true_iff in H. destruct H as [Hc Hw].
+    unfold nosepc in Hc. apply andb_true_iff in Hc. destruct Hc as [H1 H2].
+    apply negb_true_iff in H1. apply negb_true_iff in H2.
+    simpl. rewrite H1, H2. rewrite IH by assumption. rewrite <- app_assoc. reflexivity.
+Qed.
+
+Lemma split_plain : forall w, nosepb w = true -> split_tok w None [] = (None, w).
+Proof. intros w H. rewrite <- (app_nil_r w) at 1. rewrite split_nosep by assumption. reflexivity. Qed.
+
+Lemma split_named : forall h w, nosepb h = true -> nosepb w = true -> split_tok ((h ++ lit ":") ++ w) None [] = (Some h, w).
+Proof.
+  intros h w Hh Hw. rewrite <- app_assoc. rewrite split_nosep by assumption. simpl.
+  rewrite <- (app_nil_r w) at 1. rewrite split_nosep by assumption. reflexivity.
+Qed.
+
+Definition pre_of (nm : option str) : str := match nm with None => [] | Some h => h ++ lit ":" end.
+Definition name_ok (nm : option str) : Prop := match nm with None => True | Some h => forallb is_lhex h = true end.
+
+Lemma lhex_nosepc : forall c, is_lhex c = true -> nosepc c = true.
+Proof. intros c. destruct c as [[] [] [] [] [] [] [] []]; vm_compute; intros; congruence. Qed.
+Lemma alnum_nosepc : forall c, is_alnum_ c = true -> nosepc c = true.
+Proof. intros c. destruct c as [[] [] [] [] [] [] [] []]; vm_compute; intros; congruence. Qed.
+
+Lemma forallb_impl : forall {A} (f g : A -> bool) l, (forall x, f x = true -> g x = true) -> forallb f l = true -> forallb g l = true.
+Proof.
+  intros A f g l H. induction l; simpl; auto. intros E. apply andb_true_iff in E. destruct E. rewrite H, IHl; auto.
+Qed.
+
+Lemma split_pre : forall nm w, name_ok nm -> nosepb w = true -> split_tok (pre_of nm ++ w) None [] = (nm, w).
+Proof.
+  intros [h|] w Hn Hw; simpl pre_of.
+  - apply split_named; auto. unfold nosepb. eapply forallb_impl; [apply lhex_nosepc|assumption].
+  - simpl. apply split_plain. assumption.
+Qed.
+
+Definition head_ok (n : str) : Prop :=
+  nosepb (prefix ++ n) = true /\ int_parse (prefix ++ n) = None /\ lookup_simple (prefix ++ n) = CReg n.
+
+Lemma push_head : forall nm n fr, name_ok nm -> head_ok n ->
+  push_tok (pre_of nm ++ prefix ++ n) fr = (CReg n :: fst fr, nm :: snd fr).
+Proof.
+  intros nm n fr Hn (H1 & H2 & H3). unfold push_tok. rewrite split_pre by assumption. rewrite H2, H3. reflexivity.
+Qed.
+
+Definition word_tok (tok : str) : Prop := str_eqb tok LP = false /\ str_eqb tok RP = false.
+
+Lemma run_word : forall tok rest fr st, word_tok tok -> run (tok :: rest) (fr :: st) = run rest (push_tok tok fr :: st).
+Proof. intros tok rest fr st [H1 H2]. unfold LP, RP in *. cbn [run]. rewrite H1, H2. reflexivity. Qed.
+
+Lemma str_eqb_length : forall a b, str_eqb a b = true -> List.length a = List.length b.
+Proof. intros a b H. apply str_eqb_eq in H. subst. reflexivity. Qed.
+
+Lemma long_word_tok : forall tok, 2 <= List.length tok -> word_tok tok.
+Proof.
+  intros tok H. split.
+  - destruct (str_eqb tok LP) eqn:E; auto. apply str_eqb_length in E. simpl in E. lia.
+  - destruct (str_eqb tok RP) eqn:E; auto. apply str_eqb_length in E. simpl in E. lia.
+Qed.
+
+Lemma head_word_tok : forall nm n, word_tok (pre_of nm ++ prefix ++ n).
+Proof. intros. apply long_word_tok. rewrite !app_length. simpl. lia. Qed.
+
+Lemma word_word_tok : forall w, is_word cass_class w = true -> w <> [] -> word_tok w.
+Proof.
+  intros w H Hn. destruct w as [|c w]; [contradiction|]. simpl in H. apply andb_true_iff in H. destruct H as [Hc _].
+  split; simpl.
+  - destruct (Ascii.eqb_spec c "("%char); [subst; discriminate|reflexivity].
+  - destruct (Ascii.eqb_spec c ")"%char); [subst; discriminate|reflexivity].
+Qed.
+
+Lemma run_open : forall rest st, run (LP :: rest) st = run rest (([], []) :: st).
+Proof. reflexivity. Qed.
+
+Lemma run_close : forall rest types names p ptypes pnames st,
+  run (RP :: rest) ((types, names) :: (p :: ptypes, pnames) :: st) =
+  match apply_params p (rev types) (rev names) with
+  | POk c => run rest ((c :: ptypes, pnames) :: st)
+  | PValueError => PValueError
+  | PEscapes => PEscapes
+  end.
+Proof. reflexivity. Qed.
+
+(* int() *)
+Lemma digits_all : forall s p acc, forallb is_digit s = true -> (s <> [] \/ p = true) -> digits_groups s p acc = Some (acc ++ s).
+Proof.
+  induction s as [|c s IH]; intros p acc H Hp; simpl.
+  - destruct Hp as [Hp|Hp]; [contradiction|]. subst. rewrite app_nil_r. reflexivity.
+  - simpl in H. apply andb_true_iff in H. destruct H as [Hc Hs]. rewrite Hc.
+    rewrite IH; auto. rewrite <- app_assoc. reflexivity.
+Qed.
+
+Lemma int_parse_dim : forall d, wf_dim d = true -> int_parse d = Some d.
+Proof.
+  intros d H. unfold wf_dim in H. apply andb_true_iff in H. destruct H as [H H3].
+  apply andb_true_iff in H. destruct H as [H1 H2].
+  unfold int_parse. rewrite digits_all; auto.
+  - simpl. apply str_eqb_eq in H3. rewrite H3. reflexivity.
+  - left. intros E. subst. discriminate.
+Qed.
+
+Lemma lhex_not_us : forall c, is_lhex c = true -> (code c =? 95)%N = false.
+Proof. intros c. destruct c as [[] [] [] [] [] [] [] []]; vm_compute; intros; congruence. Qed.
+
+Lemma digits_lhex : forall s p acc d, forallb is_lhex s = true -> digits_groups s p acc = Some d -> d = acc ++ s.
+Proof.
+  induction s as [|c s IH]; intros p acc d H E; simpl in E.
+  - destruct p; inversion E. rewrite app_nil_r. reflexivity.
+  - simpl in H. apply andb_true_iff in H. destruct H as [Hc Hs].
+    destruct (is_digit c).
+    + apply IH in E; auto. rewrite E. rewrite <- app_assoc. reflexivity.
+    + rewrite (lhex_not_us _ Hc) in E. simpl in E. discriminate.
+Qed.
+
+Lemma strip_zeros_id : forall c s, (code c =? 48)%N = false -> strip_zeros (c :: s) = c :: s.
+Proof. intros c s H. destruct s; simpl; auto. rewrite H. reflexivity. Qed.
+
+Lemma int_parse_hex : forall c s d, forallb is_lhex (c :: s) = true -> (code c =? 48)%N = false ->
+  int_parse (c :: s) = Some d -> d = c :: s.
+Proof.
+  intros c s d H Hc E. unfold int_parse in E.
+  destruct (digits_groups (c :: s) false []) as [x|] eqn:Ed; [|discriminate].
+  apply digits_lhex in Ed; auto. simpl in Ed. subst x. rewrite strip_zeros_id in E by assumption. inversion E. reflexivity.
+Qed.
+
+Lemma hexchar_not_zero : forall n, (1 <= n)%N -> (n < 16)%N -> (code (hexchar n) =? 48)%N = false.
+Proof.
+  intros n H1 H.
+  assert (Hn : In n (map N.of_nat (seq 1 15))).
+  { apply in_map_iff. exists (N.to_nat n). split; [apply N2Nat.id|]. apply in_seq. lia. }
+  simpl in Hn. repeat (destruct Hn as [Hn|Hn]; [subst; reflexivity|]). contradiction.
+Qed.
+
+(* ------------------------------------------------------------------ lookups of keyspace and hex-name tokens *)
+Lemma is_prefix_app : forall p s, is_prefix p s = true -> exists r, s = p ++ r.
+Proof.
+  induction p as [|x p IH]; intros s H.
+  - exists s. reflexivity.
+  - destruct s as [|y s]; [discriminate|]. simpl in H. apply andb_true_iff in H. destruct H as [H1 H2].
+    apply Ascii.eqb_eq in H1. subst. destruct (IH _ H2) as [r Hr]. exists r. simpl. rewrite Hr. reflexivity.
+Qed.
+
+Lemma no_prefix_alnum : forall ks, forallb is_alnum_ ks = true -> is_prefix prefix ks = false.
+Proof.
+  intros ks H. destruct (is_prefix prefix ks) eqn:E; auto.
+  apply is_prefix_app in E. destruct E as [r Hr]. subst ks. rewrite forallb_app in H.
+  apply andb_true_iff in H. destruct H as [H _]. vm_compute in H. discriminate.
+Qed.
+
+Definition tok_cls (tok : str) : cls := match int_parse tok with Some d => CInt d | None => lookup_simple tok end.
+
+Lemma push_plain : forall tok fr, nosepb tok = true -> push_tok tok fr = (tok_cls tok :: fst fr, None :: snd fr).
+Proof. intros tok fr H. unfold push_tok. rewrite split_plain by assumption. reflexivity. Qed.
+
+Lemma ks_back : forall ks, wf_keyspace ks = true ->
+  match tok_cls ks with CInt d => Some d | k => drv_cass false k end = Some ks.
+Proof.
+  intros ks H. unfold wf_keyspace in H. apply andb_true_iff in H. destruct H as [H H3].
+  apply andb_true_iff in H. destruct H as [H1 H2].
+  unfold tok_cls. destruct (int_parse ks) as [d|].
+  - apply str_eqb_eq in H3. subst. reflexivity.
+  - unfold lookup_simple, trim_prefix. rewrite (no_prefix_alnum _ H2).
+    destruct (assoc ks registry); reflexivity.
+Qed.
+
+Lemma assoc_lhex : forall {A} (l : list (str * A)) c s,
+  forallb (fun kv => match fst kv with k0 :: _ => negb (is_lhex k0) | [] => true end) l = true ->
+  is_lhex c = true -> assoc (c :: s) l = None.
+Proof.
+  intros A l c s H Hc. induction l as [|[k v] l IH]; simpl; auto.
+  simpl in H. apply andb_true_iff in H. destruct H as [Hk Hl].
+  destruct k as [|k0 k]; [apply IH; assumption|].
+  destruct (Ascii.eqb_spec c k0).
+  - subst. rewrite Hc in Hk. discriminate.
+  - simpl. apply IH. assumption.
+Qed.
+
+Lemma registry_heads : forallb (fun kv : str * kind => match fst kv with k0 :: _ => negb (is_lhex k0) | [] => true end) registry = true.
+Proof. vm_compute. reflexivity. Qed.
+
+Lemma hexname_back : forall n, wf_name n = true ->
+  match tok_cls (hex_of n) with CInt d => Some d | u => cassname_of u end = Some (hex_of n).
+Proof.
+  intros n H. destruct n as [|c0 n]; [discriminate|].
+  unfold wf_name in H. apply andb_true_iff in H. destruct H as [H1 H2]. apply N.leb_le in H1.
+  pose proof (hex_of_lhex (c0 :: n)) as HL.
+  change (hex_of (c0 :: n)) with (hexchar (code c0 / 16) :: hexchar (code c0 mod 16) :: hex_of n) in *.
+  set (c := hexchar (code c0 / 16)) in *. set (s := hexchar (code c0 mod 16) :: hex_of n) in *.
+  assert (Hc : (code c =? 48)%N = false).
+  { apply hexchar_not_zero.
+    - apply N.div_le_lower_bound; [discriminate|]. simpl. assumption.
+    - apply N.div_lt_upper_bound; [discriminate|]. pose proof (code_lt c0). simpl. assumption. }
+  assert (Hlc : is_lhex c = true). { simpl in HL. apply andb_true_iff in HL. destruct HL. assumption. }
+  unfold tok_cls. destruct (int_parse (c :: s)) as [d|] eqn:E.
+  - apply int_parse_hex in E; auto. subst. reflexivity.
+  - unfold lookup_simple, trim_prefix.
+    assert (Hp : is_prefix prefix (c :: s) = false).
+    { destruct (is_prefix prefix (c :: s)) eqn:Ep; auto. apply is_prefix_app in Ep. destruct Ep as [r Hr].
+      change prefix with ("o"%char :: tl prefix) in Hr. simpl in Hr. inversion Hr as [[Hco Hs']].
+      rewrite Hco in Hlc. discriminate. }
+    rewrite Hp. rewrite (assoc_lhex registry c s registry_heads Hlc). reflexivity.
+Qed.
+
+Lemma field_names_hex : forall fn, forallb (forallb (fun c => code c <? 128)%N) fn = true ->
+  field_names (map (fun f => Some (hex_of f)) fn) = POk fn.
+Proof.
+  induction fn as [|f fn IH]; simpl; auto. intros H. apply andb_true_iff in H. destruct H as [H1 H2].
+  rewrite name_from_hex_of by assumption. rewrite IH by assumption. reflexivity.
+Qed.
